@@ -4,5 +4,8 @@ CONSTANTS
   RdLen = 4
   WrLen = 4
   Durs = {0, 1, 2}
-INVARIANTS SaUnaffected SaNoLeak SaIff SaMonotone RaSdpIff RdSound WrSound BlSound
+  RaPre = 4
+  HpMaxDev = 5
+  Kinds = {"sa", "ra", "kick", "bl", "rd", "wr", "hp", "sv"}
+INVARIANTS SaUnaffected SaNoLeak SaIff SaMonotone RaSdpIff RaBound RdSound WrSound BlSound HpSound SvSound
 ACTION_CONSTRAINT EmitS
